@@ -38,6 +38,9 @@ type zvC13Uni struct {
 	Chains string `json:"policy_set"`      // rewrite | filter
 	NPfx   int    `json:"prefixes"`
 	NVar   int    `json:"path_variants"`
+	// Sessions: "" = session 0 plain eBGP, session 1 route-reflector client; "roles" = session 0 eBGP route server client,
+	// session 1 eBGP customer, both with RFC 9234 roles negotiated (the export adds OTC)
+	Sessions string `json:"sessions,omitempty"`
 }
 
 type zvC13Op struct {
@@ -60,10 +63,28 @@ var zvC13Pfxs = []*bnet.Prefix{
 
 var zvC13SessName = [2]string{"ebgp", "rr"}
 
-func zvC13SessionAttrs(s int) routingtable.SessionAttrs {
+func zvC13SessNameOf(u zvC13Uni, s int) string {
+	if u.Sessions == "roles" {
+		return [2]string{"rsclient-with-roles", "customer-with-roles"}[s]
+	}
+	return zvC13SessName[s]
+}
+
+func zvC13SessionAttrs(u zvC13Uni, s int) routingtable.SessionAttrs {
 	sa := routingtable.SessionAttrs{
 		RouterID: 0x0a000001, Type: route.BGPPathType, LocalASN: 65000, ClusterID: 0x09090909,
 		LocalIP: bnet.IPv4FromOctets(10, 0, 0, 1).Ptr(),
+	}
+	if u.Sessions == "roles" {
+		sa.PeerRoleEnabled, sa.PeerRoleAdvByPeer = true, true
+		if s == 0 {
+			sa.PeerIP, sa.PeerASN, sa.RouteServerClient = bnet.IPv4FromOctets(10, 0, 1, 2).Ptr(), 65009, true
+			sa.PeerRoleLocal, sa.PeerRoleRemote = 1, 2 // RS, RS client
+		} else {
+			sa.PeerIP, sa.PeerASN = bnet.IPv4FromOctets(10, 0, 2, 2).Ptr(), 65010
+			sa.PeerRoleLocal, sa.PeerRoleRemote = 0, 3 // provider, customer
+		}
+		return sa
 	}
 	if s == 0 {
 		sa.PeerIP, sa.PeerASN = bnet.IPv4FromOctets(10, 0, 1, 2).Ptr(), 65009
@@ -178,7 +199,7 @@ func (pp *zvC13Pipe) apply(o zvC13Op) {
 	case "register":
 		if pp.has[o.S] {
 			// as fsmAddressFamily.init does
-			a := New(pp.rib, zvC13SessionAttrs(o.S), zvC13Chain(pp.u, o.S, pp.chain[o.S]))
+			a := New(pp.rib, zvC13SessionAttrs(pp.u, o.S), zvC13Chain(pp.u, o.S, pp.chain[o.S]))
 			a.Register(&zvoRec{})
 			pp.rib.RegisterWithOptions(a, routingtable.ClientOptions{BestOnly: true})
 			pp.out[o.S] = a
@@ -338,8 +359,8 @@ func zvC13Step(r *vh.Run, u zvC13Uni, hist []zvC13Op) (string, []zvC13Op, bool) 
 			chk := func(table string, b, a zvC13Snap) {
 				if d := zvC13Diff(b, a); d != "" {
 					ok = false
-					r.Violation(vh.Sig("clause", "before_after", "table", table, "op", opName, "session", zvC13SessName[o.S], "attr", d), c,
-						"%s of the %s session changed the %s (first difference: %s)\n  before:%s\n  after:%s", opName, zvC13SessName[o.S], table, d, b, a)
+					r.Violation(vh.Sig("clause", "before_after", "table", table, "op", opName, "session", zvC13SessNameOf(u, o.S), "attr", d), c,
+						"%s of the %s session changed the %s (first difference: %s)\n  before:%s\n  after:%s", opName, zvC13SessNameOf(u, o.S), table, d, b, a)
 				}
 			}
 			chk("loc_rib", before.rib, after.rib)
@@ -377,9 +398,9 @@ func zvC13Step(r *vh.Run, u zvC13Uni, hist []zvC13Op) (string, []zvC13Op, bool) 
 			r.Count("differential_adjribout_compared", 1)
 			if d := zvC13Diff(alone.out[s], after.out[s]); d != "" {
 				ok = false
-				r.Violation(vh.Sig("clause", "differential", "table", "adj_rib_out", "op", opName, "session", zvC13SessName[1-s], "attr", d), c,
+				r.Violation(vh.Sig("clause", "differential", "table", "adj_rib_out", "op", opName, "session", zvC13SessNameOf(u, 1-s), "attr", d), c,
 					"after %s the Adj-RIB-Out of the %s session differs from the one of the same history without the %s session (first difference: %s)\n  alone:%s\n  with the other session:%s",
-					opName, zvC13SessName[s], zvC13SessName[1-s], d, alone.out[s], after.out[s])
+					opName, zvC13SessNameOf(u, s), zvC13SessNameOf(u, 1-s), d, alone.out[s], after.out[s])
 			}
 		}
 	}
@@ -430,10 +451,18 @@ func zvC13Universes(thorough bool) []zvC13Uni {
 	for _, src := range []string{"ibgp", "ebgp"} {
 		for _, ch := range []string{"rewrite", "filter"} {
 			if thorough {
-				us = append(us, zvC13Uni{src, ch, 3, 3})
+				us = append(us, zvC13Uni{src, ch, 3, 3, ""})
 			} else {
-				us = append(us, zvC13Uni{src, ch, 3, 2}, zvC13Uni{src, ch, 2, 3})
+				us = append(us, zvC13Uni{src, ch, 3, 2, ""}, zvC13Uni{src, ch, 2, 3, ""})
 			}
+		}
+	}
+	// sessions whose export adds the OTC attribute (RFC 9234 roles negotiated): a route server client (no other rewrite) and a customer
+	for _, src := range []string{"ibgp", "ebgp"} {
+		if thorough {
+			us = append(us, zvC13Uni{src, "rewrite", 3, 3, "roles"}, zvC13Uni{src, "filter", 3, 3, "roles"})
+		} else {
+			us = append(us, zvC13Uni{src, "rewrite", 2, 3, "roles"})
 		}
 	}
 	return us
@@ -444,7 +473,7 @@ func TestVerifC13(t *testing.T) {
 	defer r.Finish()
 	zvoTune()
 	r.Rule("per universe (Adj-RIB-In peer ibgp|ebgp x policy set rewrite|filter), BFS over all histories of {announce one of 3 path variants, withdraw} on 3 prefixes (quick: 2 variants x 3 prefixes and 3 variants x 2 prefixes) through a real Adj-RIB-In, " +
-		"{ReplaceFilterChain to one of 3 chains (the current one = refresh), unregister, register} on an eBGP and a route-reflector-client session, until the canonical state (deep snapshot of all four tables, " +
+		"{ReplaceFilterChain to one of 3 chains (the current one = refresh), unregister, register} on an eBGP and a route-reflector-client session (further universes: a route-server-client and a customer session with RFC 9234 roles negotiated), until the canonical state (deep snapshot of all four tables, " +
 		"configured chains, registrations) set closes; before/after oracle on export-side operations, differential oracle against pipelines with fewer sessions on every operation; evaluations = universes explored")
 	r.Require(zvC13Required...)
 	if r.IsReplay() {
